@@ -129,8 +129,8 @@ TraceLeaseOp ==
   /\ IsEvent("LeaseOp")
   /\ LET e    == Trace[l]
          kind == e.a.kind
-         lid  == IF Dev(C, "NoTrimSingle") THEN e.a.lease ELSE e.a.lid
-         arg  == IF kind = "dead" THEN (IF Dev(C, "RawDeadReason") THEN e.a.arg ELSE e.a.argn) ELSE e.a.arg
+         lid  == e.a.lid         \* the lease id is trimmed before it is looked up
+         arg  == IF kind = "dead" THEN e.a.argn ELSE e.a.arg   \* a blank reason is no reason
          r    == LeaseOp(C, S.msgs, kind, lid, arg, e.now)
      IN /\ Chk("err", r.err = e.r.err)
         /\ Chk("post", r.msgs = e.post)
@@ -143,7 +143,7 @@ TraceLeaseBatch ==
   /\ IsEvent("LeaseBatch")
   /\ LET e    == Trace[l]
          kind == e.a.kind
-         arg  == IF kind = "dead" THEN (IF Dev(C, "RawDeadReason") THEN e.a.arg ELSE e.a.argn) ELSE e.a.arg
+         arg  == IF kind = "dead" THEN e.a.argn ELSE e.a.arg
          r    == LeaseBatch(C, S.msgs, kind, e.a.lids, arg, e.now)
      IN /\ Chk("err", e.r.err = "")
         /\ Chk("ok", r.ok = e.r.ok)
@@ -169,16 +169,23 @@ TraceMutateIds ==
 
 TraceMutateFilter ==
   /\ IsEvent("MutateFilter")
-  /\ LET e   == Trace[l]
-         sel == Select(S.msgs, rank, e.a.op, e.a.f)
-         r   == MutateIds(S.msgs, e.a.op, sel, e.now)
+  /\ LET e    == Trace[l]
+         M    == S.msgs
+         cand == FilterCand(M, e.a.op, e.a.f)
+         lim  == EffLimit(e.a.f.limit)
+         k    == Min2(lim, Cardinality(cand))
+         \* the selection is observable: every selected message changes state
+         obs  == {i \in DOMAIN M : i \notin DOMAIN e.post \/ e.post[i] # M[i]}
+         sel  == IF k = Cardinality(cand) THEN cand ELSE obs
+         r    == MutateIds(M, e.a.op, sel, e.now)
      IN /\ Chk("err", e.r.err = "")
-        /\ Chk("matched", e.r.matched = Cardinality(sel))
+        /\ Chk("matched", e.r.matched = k)
         /\ Chk("previewflag", e.r.preview = e.a.preview)
         /\ IF e.a.preview
            THEN /\ Chk("count", e.r.n = 0)
-                /\ Chk("post", e.post = S.msgs)
-           ELSE /\ Chk("count", e.r.n = r.n)
+                /\ Chk("post", e.post = M)
+           ELSE /\ Chk("select", IsTopK(M, rank, cand, sel, lim, TRUE))
+                /\ Chk("count", e.r.n = r.n)
                 /\ Chk("post", r.msgs = e.post)
         /\ Chk("vol", e.vol.lp = S.lp /\ e.vol.ls = S.ls)
         /\ Generic(e, e.a.op, <<>>)
@@ -202,7 +209,8 @@ TraceListMessages ==
      IN /\ PruneStep(e)
         /\ IF ~valid THEN Chk("err", e.r.err = "badorder" /\ Len(items) = 0)
            ELSE /\ Chk("err", e.r.err = "")
-                /\ Chk("set", SeqRange(ids) = ListedSet(M, e.rank, e.a.f, desc) /\ Cardinality(SeqRange(ids)) = Len(ids))
+                /\ Chk("set", /\ Cardinality(SeqRange(ids)) = Len(ids)
+                              /\ IsTopK(M, e.rank, {i \in DOMAIN M : Matches(M[i], e.a.f)}, SeqRange(ids), EffLimit(e.a.f.limit), desc))
                 /\ Chk("order", SeqRange(ids) \subseteq DOMAIN M /\ OrderedBy(M, e.rank, ids, desc, TRUE))
                 /\ Chk("fields", \A k \in DOMAIN items : items[k].id \in DOMAIN M /\ ItemEq(items[k], M[items[k].id], e.a.inc))
         /\ Generic(e, "read", <<>>)
